@@ -137,10 +137,23 @@ func (c StoreCase) dry(plain [][]byte, ids []string, fresh bool) *dryInfo {
 	if d != nil && !fresh {
 		return d
 	}
-	work := hx.Scratch("c08dry")
+	// The undisturbed traced run is infrastructure: strace occasionally ends with a non-zero
+	// status of its own under load although the child did all its work. Try a few times
+	// before giving up (giving up is "inconclusive", never a verdict).
+	var r childResult
+	var work, store string
+	for attempt := 0; attempt < 4; attempt++ {
+		if work != "" {
+			os.RemoveAll(work)
+		}
+		work = hx.Scratch("c08dry")
+		store = c.prepare(work, plain, ids)
+		r = runChild(c.job(store, -1), work, "", 0)
+		if r.Report != nil && r.Report.Err == "" && r.ExitCode == 0 && len(r.Trace.Threads) == len(c.Writers) {
+			break
+		}
+	}
 	defer os.RemoveAll(work)
-	store := c.prepare(work, plain, ids)
-	r := runChild(c.job(store, -1), work, "", 0)
 	if r.Report == nil || r.Report.Err != "" || r.ExitCode != 0 || len(r.Trace.Threads) != len(c.Writers) {
 		infra("dry run of the store child failed (exit %d, %d writer threads seen, want %d)\nstdout: %s\nstderr: %s\nlog:\n%s",
 			r.ExitCode, len(r.Trace.Threads), len(c.Writers), r.Stdout, r.Stderr, logTail(r.Log, 40))
@@ -218,6 +231,7 @@ func runStore(c StoreCase) (o hx.Outcome) {
 	work := hx.Scratch("c08s")
 	defer os.RemoveAll(work)
 	var store string
+	infraRetries := 0
 	for attempt := 0; ; attempt++ {
 		os.RemoveAll(work)
 		os.MkdirAll(work, 0o755)
@@ -258,6 +272,13 @@ func runStore(c StoreCase) (o hx.Outcome) {
 			store = c.prepare(work, plain, ids)
 		}
 		res = runChild(c.job(store, fsize), work, injSys, injWhen)
+		if !res.Trace.Killed && (res.Report == nil || res.Report.Err != "") && infraRetries < 3 {
+			// the tracer (not the child's work) failed, e.g. strace ended with its own error
+			// under load: run the same point again
+			infraRetries++
+			attempt--
+			continue
+		}
 		// single writer: the run must have followed the reference sequence of calls up to the kill,
 		// otherwise "the c-th call of s" is not the step the enumeration thinks it is
 		off := false
